@@ -92,7 +92,11 @@ func main() {
 			fmt.Fprintf(os.Stderr, "simrun: %v\n", err)
 			os.Exit(2)
 		}
+		for i := rf.Idx - rf.Prefix; i < rf.Idx; i++ {
+			runOne(rf.World, rf.Prop, *variant, rf.VerifSeed, i, nil, false) // process history only
+		}
 		res := runOne(rf.World, rf.Prop, *variant, rf.VerifSeed, rf.Idx, rf.Tape, true)
+		res.JobFrom = rf.Idx - rf.Prefix
 		_ = enc.Encode(res)
 		return
 	}
@@ -110,6 +114,7 @@ func main() {
 		if len(res.Violations) == 0 && !*keepTape {
 			res.Tape = nil
 		}
+		res.JobFrom = *from
 		_ = enc.Encode(res)
 	}
 }
